@@ -42,7 +42,7 @@ func permitAll() config.Command { return config.Command{Name: "*", Action: confi
 func richConfig(r *gen.R, nScopes int) *stdCfg {
 	s := &stdCfg{Users: map[string]*userInfo{}, Keys: &refsrv.KeyStore{Hashes: map[string][]byte{}, Fail: map[string]bool{}}}
 	for k := 0; k < nScopes; k++ {
-		sc := scopeInfo{Name: fmt.Sprintf("scope%d", k), Key: "key-" + r.Alnum(6+r.Intn(6)), Prefix: fmt.Sprintf("10.%d.0.0/16", k), Octet: k}
+		sc := scopeInfo{Name: fmt.Sprintf("scope%d", k), Key: "key-" + r.Alnum(6+r.Intn(6)) + r.PickS("", "", "$"+r.Alnum(3), "${HOME}", "%s", " ~"), Prefix: fmt.Sprintf("10.%d.0.0/16", k), Octet: k}
 		s.Scopes = append(s.Scopes, sc)
 		s.Cfg.Secrets = append(s.Cfg.Secrets, refsrv.Scope(sc.Name, sc.Key, sc.Prefix))
 	}
@@ -102,8 +102,21 @@ func richConfig(r *gen.R, nScopes int) *stdCfg {
 	badSvc := config.Service{Name: "badsvc", SetValues: []config.Value{{Name: "", Values: nil}}}
 	longSvc := config.Service{Name: "longsvc", SetValues: []config.Value{{Name: "motd", Values: []string{string(gen.Fill('m', 300))}}}}
 	utfSvc := config.Service{Name: "utfsvc", SetValues: []config.Value{{Name: "banner", Values: []string{"gr\u00fc\u00dfe"}}}}
+	// ... and one with more set_values than a reply can carry arguments (255)
+	wideSvc := config.Service{Name: "widesvc"}
+	for i := 0; i < 300; i++ {
+		wideSvc.SetValues = append(wideSvc.SetValues, config.Value{Name: fmt.Sprintf("attr%d", i), Values: []string{fmt.Sprint(i)}, Optional: i%2 == 0})
+	}
 	p = pw()
-	add(config.User{Name: "ivan", Services: []config.Service{shellSvc, badSvc, longSvc, utfSvc}, Authenticator: refsrv.Bcrypt(p), Accounter: refsrv.FileAccounter()},
+	add(config.User{Name: "ivan", Services: []config.Service{shellSvc, badSvc, longSvc, utfSvc, wideSvc}, Authenticator: refsrv.Bcrypt(p), Accounter: refsrv.FileAccounter()},
 		&userInfo{Password: p, Cred: "hash", Accounter: "file"})
+	// 11. two groups carry an accounter: the FIRST one wins, and it is of a type nobody registered, so
+	// the user has no accounter; the authenticator comes from a third group
+	p = pw()
+	add(config.User{Name: "judy", Commands: cmds, Groups: []config.Group{
+		{Name: "audit", Accounter: &config.Accounter{Name: "syslog", Type: config.SYSLOG}},
+		{Name: "ops", Accounter: refsrv.FileAccounter()},
+		{Name: "auth", Authenticator: refsrv.Bcrypt(p)}}},
+		&userInfo{Password: p, Cred: "hash", Accounter: "unregistered"})
 	return s
 }
